@@ -23,7 +23,7 @@ RULE = ("Hypothesis draws a type program rich in keywords (tuples -> prefixItems
         "pattern/additional properties, flattened objects -> unevaluatedProperties) at depth, a target version V in {draft 2019-09, "
         "draft-07, OpenAPI 3.1, OpenAPI 3.0} and 5-12 data (valid, mutants, atoms, random).  Oracle: is_valid_V(d, schema_V(T)) == "
         "is_valid_2020-12(d, schema_2020-12(T)) with jsonschema's Draft201909 / Draft7 / Draft202012 validators, and for OpenAPI 3.0 a "
-        "Draft 4 validator after the documented mapping (nullable, boolean exclusive bounds, example); OpenAPI schemas are validated "
+        "(the vocabulary rule is also applied to definitions_schema given the type in both directions); Draft 4 validator after the documented mapping (nullable, boolean exclusive bounds, example); OpenAPI schemas are validated "
         "inside a document holding definitions_schema(...) under components/schemas.  Comparisons are skipped only where OpenAPI 3.0 "
         "documents a dropped keyword (dependentRequired, unevaluatedProperties, additionalItems) is decisive.  Vocabulary scan at every "
         "nesting level: no prefixItems / $defs / dependentRequired / unevaluatedProperties / const / examples / array type where V does not "
@@ -167,6 +167,21 @@ def _evaluate(case, ctx, b, prog, opts):
         ctx.count()
         ctx.violation({"kind": "foreign_vocabulary", "version": version, "keyword": hit[1]}, single0,
                       f"{hit[0]} in the {version} schema: {tdcase.compact(conv, 800)}")
+    # the same vocabulary rule for definitions_schema given the type in BOTH directions (definitions merged by compare_schemas)
+    try:
+        both = json.loads(json.dumps(definitions_schema(deserialization=[tp], serialization=[tp], all_refs=True,
+                                                        version=getattr(JsonSchemaVersion, VERSIONS[version]),
+                                                        additional_properties=base_kw["additional_properties"], aliaser=base_kw["aliaser"])))
+    except Exception:
+        ctx.h("both_directions:not_mergeable")  # e.g. "Reference X has different schemas for deserialization and serialization"
+    else:
+        if both:
+            ctx.h("both_directions:definitions")
+            hit2 = scan(both, FOREIGN[version], "$definitions(both)", version)
+            if hit2:
+                ctx.count()
+                ctx.violation({"kind": "foreign_vocabulary", "version": version, "keyword": hit2[1], "entry": "definitions_schema(both directions)"}, single0,
+                              f"{hit2[0]} in definitions_schema(deserialization=[T], serialization=[T], version={version}): {tdcase.compact(both, 800)}")
     prefix = {"2019-09": "#/$defs/", "draft-07": "#/definitions/", "oas30": "#/components/schemas/", "oas31": "#/components/schemas/"}[version]
     for r in collect_refs(conv) + (collect_refs(defs) if defs else []):
         if not r.startswith(prefix):
